@@ -1164,6 +1164,22 @@ func (c *Ctx) specCall(env *SpecEnv, e *SExpr) Value {
 				specError("fresh() outside a function contract")
 			}
 			return Or(Eq(s.Ref, IntC(0)), Cmp(">=", s.Ref, c.alloc0, true))
+		case "isMethodValue":
+			// isMethodValue(f, "name"): the function value f is the method value x.name (a bound-method closure)
+			if len(e.Args) != 3 || e.Args[2].Kind != "str" {
+				specError("isMethodValue(f, \"method\")")
+			}
+			fv, ok := c.evalSpec(env, e.Args[1]).(FuncV)
+			if !ok {
+				specError("isMethodValue needs a function value")
+			}
+			if fv.Fn == nil {
+				if fv.Sym != nil {
+					specError("isMethodValue on a symbolic function value")
+				}
+				return False()
+			}
+			return BoolT(fv.Fn.Synthetic != "" && fv.Fn.Name() == e.Args[2].Name+"$bound")
 		case "seqeq":
 			evalArgs()
 			return c.seqEq(env, args[0], args[1])
@@ -1857,8 +1873,8 @@ func (c *Ctx) checkCallClause(st *State, fr *Frame, cl Clause, i int) {
 	if e.Kind == "binary" && e.Op == "==>" && e.Args[0].Kind == "call" && e.Args[0].Args[0].Kind == "ident" && e.Args[0].Args[0].Name == "pair" {
 		// pair(NameA, a, NameB, b) ==> cond: every logged B is preceded by an A (the most recent one is bound to a)
 		pa := e.Args[0].Args
-		if len(pa) != 5 {
-			specError("pair(NameA, a, NameB, b)")
+		if len(pa) < 5 {
+			specError("pair(NameA, a, NameB, b [, b2 ...])")
 		}
 		nameA, nameB := pa[1].Name, pa[3].Name
 		first := func(r CallRec) Value {
@@ -1890,7 +1906,18 @@ func (c *Ctx) checkCallClause(st *State, fr *Frame, cl Clause, i int) {
 					env.result, env.hasResult = c.curRet, true
 				}
 				env.vars[pa[2].Name] = first(st.CallLog[ai])
-				env.vars[pa[4].Name] = first(rb)
+				if len(pa) == 5 {
+					env.vars[pa[4].Name] = first(rb)
+				} else {
+					// several binders for B: its arguments in order (receiver first for methods)
+					for k := 4; k < len(pa); k++ {
+						if k-4 < len(rb.Args) {
+							env.vars[pa[k].Name] = rb.Args[k-4]
+						} else {
+							specError("pair: " + nameB + " has fewer arguments than binders")
+						}
+					}
+				}
 				t = c.evalBool(env, e.Args[1])
 				if st.CallLog[ai].Cond != nil {
 					t = Implies(st.CallLog[ai].Cond, t)
